@@ -28,7 +28,8 @@ EncCheck(e, ch) ==
               ELSE IF e.vh > 0 THEN (IF e.vh <= 40 /\ Fits(mode, n, h, e.vh, e.ec) THEN e.vh ELSE 0)
               ELSE MinVersion(mode, n, h, e.ec)
       okOutcome == e.panic = 0 /\ (IF want = 0 THEN e.err = 1 ELSE e.err = 0 /\ e.v = want /\ e.mode = mode /\ e.lvl = e.ec)
-      okMask == e.err = 1 \/ (e.mask \in 0..7 /\ (e.mh \in 0..7 => e.mask = e.mh))
+      okMask == /\ e.err = 1 \/ (e.mask \in 0..7 /\ (e.mh \in 0..7 => e.mask = e.mh))
+                /\ e.prev_then = e.prev_now           \* the matrix returned by the previous call still reads as it did (no aliasing between results)
       okMatrix == IF e.err = 1 \/ e.chk = 0 \/ ~okOutcome \/ ~okMask THEN TRUE
                   ELSE /\ e.d = Dim(e.v) /\ ChShapeOK(e.rows, e.d, e.d)
                        /\ RefCheck(ChUnRows(e.rows, e.d, e.d), e.v, e.ec, e.mask,
